@@ -1182,6 +1182,12 @@ aiff_rewrite_header (SF_PRIVATE *psf)
 	header_len = paiff->ssnd_offset + 8 + SIZEOF_SSND_CHUNK ;
 	if (psf->header.len < header_len || header_len > psf->dataoffset)
 		return SFE_INTERNAL ;
+
+	/* The chunk offsets were recorded while parsing; never trust them blindly. */
+	for (k = 0 ; k < (int) psf->rchunks.used ; k++)
+		if (psf->rchunks.chunks [k].mark32 == COMM_MARKER || psf->rchunks.chunks [k].mark32 == PEAK_MARKER || psf->rchunks.chunks [k].mark32 == SSND_MARKER)
+			if (psf->rchunks.chunks [k].offset < 8 || psf->rchunks.chunks [k].offset > header_len)
+				return SFE_INTERNAL ;
 	psf_fseek (psf, 0, SEEK_SET) ;
 	psf_fread (psf->header.ptr, header_len, 1, psf) ;
 
